@@ -241,7 +241,17 @@ pub fn dispatch(rt: &tokio::runtime::Runtime, name: &str, args: &[&str]) -> Opti
                 Ok(_) => Some(t_sig.elapsed().as_millis()),
                 Err(_) => None,
             };
-            let rebind = if returned.is_some() { TcpListener::bind(&addr).is_ok() } else { false };
+            let mut rebind = false;
+            if returned.is_some() {
+                // a few attempts: another runner process may hold the port for an instant while probing for a free one
+                for _ in 0..5 {
+                    if TcpListener::bind(&addr).is_ok() {
+                        rebind = true;
+                        break;
+                    }
+                    std::thread::sleep(Duration::from_millis(40));
+                }
+            }
             let mut inflight = 0;
             let mut inflight_ok = 0;
             for (st, s, got) in conns.iter_mut() {
